@@ -355,7 +355,16 @@ func main() {
 					if ce, ok := es.X.(*ast.CallExpr); ok {
 						if sel, ok := ce.Fun.(*ast.SelectorExpr); ok && sel.Sel.Name == "Go" && identName(sel.X) == "eg" {
 							if len(mainStmts) > 0 {
-								odd = append(odd, "goroutine-spawned-after-main-statement")
+								// how many provider calls of the injector's own flow precede this spawn
+								ncalls := 0
+								for _, ms := range mainStmts {
+									if as, ok := ms.(*ast.AssignStmt); ok && len(as.Rhs) == 1 {
+										if _, ok := as.Rhs[0].(*ast.CallExpr); ok {
+											ncalls++
+										}
+									}
+								}
+								odd = append(odd, fmt.Sprintf("goroutine-%d-spawned-after-%d-main-calls", len(gos)+1, ncalls))
 							}
 							fl := ce.Args[0].(*ast.FuncLit)
 							gos = append(gos, fl.Body.List)
